@@ -1,6 +1,7 @@
 /- Driver ops for the pytree helpers (C19).  Leaves are opaque JSON values (element slices). -/
 import JumanjiModel.Bridge.Json
 import JumanjiModel.Pytree
+import JumanjiModel.Prim.Float
 open Lean Jb
 
 namespace Jb.PytreeOps
@@ -53,7 +54,92 @@ def opIsEqual : Op := fun j => do
   let t2 ← getLTree (← field j "t2")
   pure (match isEqual t1 t2 with | some b => jBool b | none => .null)
 
+def errStr : Except AssertErr Unit → String
+  | .ok () => "ok" | .error .sameValues => "same_values" | .error .differ => "differ" | .error .structureMismatch => "structure"
+
+/-- {"t1": …, "t2": …} → what the two assertion helpers do: {"different": ok|same_values|structure, "equal": ok|differ|structure} -/
+def opAssert : Op := fun j => do
+  let t1 ← getLTree (← field j "t1")
+  let t2 ← getLTree (← field j "t2")
+  pure (jObj [("different", jStr (errStr (assertDifferent t1 t2))), ("equal", jStr (errStr (assertEqual t1 t2)))])
+
+/-- `x.astype(to)` on one number, for the value classes the correspondence check uses: integer targets truncate
+toward zero and wrap around, bool is "non-zero", float32 rounds integers to the nearest binary32 value (other float
+conversions keep the value: the check only sends values that are representable in the target float type) -/
+def castNum (to : String) (x : JsonNumber) : JsonNumber :=
+  let t : Int := x.mantissa.tdiv ((10 : Int) ^ x.exponent)
+  let wrap (lo hi : Int) : JsonNumber := ⟨(t - lo) % (hi - lo + 1) + lo, 0⟩
+  match to with
+  | "bool" => ⟨if x.mantissa == 0 then 0 else 1, 0⟩
+  | "int8" => wrap (-128) 127 | "int16" => wrap (-32768) 32767 | "int32" => wrap (-2147483648) 2147483647
+  | "uint8" => wrap 0 255 | "uint16" => wrap 0 65535 | "uint32" => wrap 0 4294967295
+  | "float32" =>
+    if x.mantissa % ((10 : Int) ^ x.exponent) == 0 then
+      let r := Jx.roundF32 (t : Rat)
+      if r.den == 1 then ⟨r.num, 0⟩ else x
+    else x
+  | _ => x
+
+/-- `jnp.promote_types` on the dtypes of the check (x64 disabled) -/
+def promoteStr (a b : String) : String :=
+  let kindBits (d : String) : Char × Nat :=
+    match d with
+    | "bool" => ('b', 1) | "int8" => ('i', 8) | "int16" => ('i', 16) | "int32" => ('i', 32)
+    | "uint8" => ('u', 8) | "uint16" => ('u', 16) | "uint32" => ('u', 32)
+    | "float16" => ('f', 16) | _ => ('f', 32)
+  let name (k : Char) (n : Nat) : String :=
+    match k with
+    | 'b' => "bool" | 'f' => if n ≤ 16 then "float16" else "float32"
+    | 'u' => s!"uint{n}" | _ => s!"int{min n 32}"
+  if a == b then a else
+  let (ka, na) := kindBits a
+  let (kb, nb) := kindBits b
+  if ka == 'b' then b else if kb == 'b' then a
+  else if ka == 'f' && kb == 'f' then name 'f' (max na nb)
+  else if ka == 'f' then a else if kb == 'f' then b
+  else if ka == kb then name ka (max na nb)
+  else
+    let (ni, nu) := if ka == 'i' then (na, nb) else (nb, na)
+    if nu < ni then name 'i' ni else name 'i' (2 * nu)
+
+/-- nested lists of numbers up to depth `fuel` (arrays here have rank ≤ 4) -/
+def mapNums (f : JsonNumber → JsonNumber) : Nat → Json → Json
+  | _, .num n => .num (f n)
+  | fuel + 1, .arr a => .arr (a.map (mapNums f fuel))
+  | _, j => j
+
+/-- a slice / element value is {"shape": […], "v": nested numbers} -/
+def castVal (frm to : String) (v : Json) : Json :=
+  if frm == to then v else
+  match v.getObjVal? "v", v.getObjVal? "shape" with
+  | .ok x, .ok sh => jObj [("shape", sh), ("v", mapNums (castNum to) 16 x)]
+  | _, _ => v
+
+def getTArr (j : Json) : Except String (TArr String Json) := do
+  pure { dtype := ← fStr j "dtype", slices := ← getJsonList (← field j "slices") }
+def getTVal (j : Json) : Except String (TVal String Json) := do
+  pure { dtype := ← fStr j "dtype", val := ← field j "val" }
+def jTArr (a : TArr String Json) : Json := jObj [("dtype", jStr a.dtype), ("slices", .arr a.slices.toArray)]
+def jTVal (a : TVal String Json) : Json := jObj [("dtype", jStr a.dtype), ("val", a.val)]
+
+/-- {"tree": {td, leaves: [{dtype, slices}]}, "i": int, "element": {td, leaves: [{dtype, val}]}} →
+{"tree": batched typed tree | null, "slice": typed tree | null (the new tree sliced at i)} -/
+def opAddElementTyped : Op := fun j => do
+  let tj ← field j "tree"
+  let ej ← field j "element"
+  let t : PTree String (TArr String Json) :=
+    { td := ← fStr tj "td", leaves := ← (← getJsonList (← field tj "leaves")).mapM getTArr }
+  let e : PTree String (TVal String Json) :=
+    { td := ← fStr ej "td", leaves := ← (← getJsonList (← field ej "leaves")).mapM getTVal }
+  let i ← fInt j "i"
+  let r := addElementT promoteStr castVal t i e
+  let jt (x : PTree String (TArr String Json)) : Json := jObj [("td", jStr x.td), ("leaves", jList jTArr x.leaves)]
+  let jv (x : PTree String (TVal String Json)) : Json := jObj [("td", jStr x.td), ("leaves", jList jTVal x.leaves)]
+  pure (jObj [("tree", match r with | some x => jt x | none => .null),
+              ("slice", match r.bind (fun x => sliceT x i) with | some x => jv x | none => .null)])
+
 def ops : List (String × Op) :=
   [("pytree.transpose_slice", opTransposeSlice), ("pytree.slice", opSlice),
-   ("pytree.add_element", opAddElement), ("pytree.is_equal", opIsEqual)]
+   ("pytree.add_element", opAddElement), ("pytree.is_equal", opIsEqual), ("pytree.assert", opAssert),
+   ("pytree.add_element_typed", opAddElementTyped)]
 end Jb.PytreeOps
